@@ -24,7 +24,7 @@ ASSUMPTIONS = ["align=True / unequal-length seqlogos shell out to mafft-linsi (n
 EXHAUSTIVE = {"quick": ["rankfrequency: all 4 normalisation flag combinations x 2 scale settings on fixed witnesses"],
               "thorough": ["rankfrequency: all 4 flag combinations x 3 scale settings x log flags on fixed witnesses",
                            "regex: every multiset of 1..3 sequences of length 2 over AC"]}
-REQUIRE = {"plots_on_implicit_axes": 4, "regex_cases": 9, "regex_members_checked": 408, "regex_nonmembers_checked": 500, "regex_gapped_cases": 2, "regex_every_column_gapped": 2, "consensus_cases": 7,
+REQUIRE = {"rankfrequency_integer_dtype_cases": 7, "plots_on_implicit_axes": 4, "regex_cases": 9, "regex_members_checked": 408, "regex_nonmembers_checked": 500, "regex_gapped_cases": 2, "regex_every_column_gapped": 2, "consensus_cases": 7,
            "seqlogos_cases": 2, "rankfrequency_cases": 9, "rankfrequency_with_missing": 5, "label_color_cases": 10, "label_rare_black_checked": 8,
            "density_scatter_cases": 5, "clustermap_cases": 4, "clustermap_cells_checked": 138, "clustermap_single_chain": 2, "clustermap_meta": 1}
 SHARDS = {"quick": 6, "thorough": 16}
